@@ -20,8 +20,10 @@ def run(tier, seed):
     }
     out.assumptions = [
         "Euclidean-type h2 flows and all h1 flows at rational times; Gaussian-split h2 flows for metrics Q diag(1/k^2) Q' with rational orthogonal Q "
-        "and integer k (identity; diag(1, 1/4, 1/9); the same rotated in a plane) at times j*atan2(3,-4), where every sine and cosine is rational "
-        "(phases up to 3*theta = 7.5 rad > one period); states in R^3; tolerance 1e-9",
+        "and rational k (identity; diag(1, 1/4, 1/9); the same rotated in a plane; diag(1, 1/4, 1); diag(4, 1, 4) with frequencies 1/2, 1, 1/2) at "
+        "times j*atan2(3,-4), where every sine and cosine is rational (phases up to 7.5 rad and times up to 10 > 2*pi); states in R^3; tolerance 1e-9",
+        "each system is checked as built with its metric, after being built with another metric, used and reassigned (what the metric adapters do), "
+        "and -- dense metrics -- with the metric given as the inverse of an already used matrix object",
         "the closed-form harmonic-oscillator solution is the documented exact solution; the spec checks on it, exactly: energy conservation, "
         "Phi(s)Phi(t) = Phi(s+t), Phi(-t)Phi(t) = id; Jacobian blocks by applying the linear flow to unit momenta",
         "dh1/dq from the documented h1 via ZooModel's exact stencil derivatives (as in C05); dh2_flow_dmom exists on the constrained systems only",
